@@ -707,20 +707,52 @@ func (b *Builder) V1Prove() bool {
 	if len(cands) == 0 {
 		return false
 	}
-	e := cands[rapid.IntRange(0, len(cands)-1).Draw(b.T, "fcProve")]
+	// one transaction may carry the proofs of several contracts (a host proving all its contracts of the window at once)
+	var all types.Transaction
+	proofs := 0
+	want := 1
+	if len(cands) > 1 && rapid.Bool().Draw(b.T, "fcProveSeveral") {
+		want = 3
+	}
+	for proofs < want && len(cands) > 0 {
+		ci := rapid.IntRange(0, len(cands)-1).Draw(b.T, "fcProve")
+		e := cands[ci]
+		cands = append(cands[:ci:ci], cands[ci+1:]...)
+		txn, ok := b.v1ProveOne(e)
+		if !ok {
+			if proofs == 0 && want == 1 {
+				return false
+			}
+			continue
+		}
+		all.StorageProofs = append(all.StorageProofs, txn.StorageProofs...)
+		proofs++
+	}
+	if proofs == 0 {
+		return false
+	}
+	if proofs > 1 {
+		b.label(fmt.Sprintf("v1-%d-proofs-in-one-transaction", proofs))
+	}
+	b.finishV1(all)
+	return true
+}
+
+// v1ProveOne prepares the honest storage proof of one provable contract and books its expected payouts.
+func (b *Builder) v1ProveOne(e types.FileContractElement) (types.Transaction, bool) {
 	windowID := b.C.Store.CI[e.FileContract.WindowStart-1].ChainIndex.ID
 	txn, ok := b.V1ProofFor(e, windowID)
 	if !ok {
-		return false
+		return types.Transaction{}, false
 	}
 	if b.V1Era() == "B" {
 		idx := ref.ChallengeIndex(e.FileContract.Filesize, windowID, e.ID)
 		if EraBHonestProofFails(e.FileContract.Filesize, idx) {
-			return false // documented legacy window: no completeness claim
+			return types.Transaction{}, false // documented legacy window: no completeness claim
 		}
 	}
 	if b.V1Era() == "A" && e.FileContract.Filesize == 0 {
-		return false // no leaf exists to prove; era A has no empty-file rule
+		return types.Transaction{}, false // no leaf exists to prove; era A has no empty-file rule
 	}
 	b.usedFC[e.ID] = true
 	c := b.Exp.contract(e.ID, false)
@@ -738,8 +770,7 @@ func (b *Builder) V1Prove() bool {
 	if _, ok := b.W.Sparse[e.FileContract.FileMerkleRoot]; ok {
 		b.label("v1-proof-of-huge-file")
 	}
-	b.finishV1(txn)
-	return true
+	return txn, true
 }
 
 // V1Foundation updates the Foundation addresses via arbitrary data.
